@@ -48,6 +48,11 @@ TRANSPARENT = {
     "std::sync::Mutex::lock": (0, ()),
     "std::sync::poison::mutex::Mutex::lock": (0, ()),
     "std::cell::Cell::new": (0, ()),
+    "std::result::Result::unwrap_or": (0, ()),
+    "std::option::Option::unwrap_or": (0, ()),
+    "std::convert::TryInto::try_into": (0, ()),
+    "<T as std::convert::TryInto<U>>::try_into": (0, ()),
+    "std::convert::TryFrom::try_from": (0, ()),
     "std::option::Option::and_then": (0, ()),
     "std::option::Option::ok_or_else": (0, ()),
     "std::option::Option::ok_or": (0, ()),
@@ -838,3 +843,65 @@ def chain_calls_ip(F, fn, operand=None, local=None, depth=0, _seen=None):
                             work.append(a["pl"]["l"])
     out.discard("")
     return out
+
+
+def path_summaries(fn, edge_fact=None, block_fact=None, start=0, max_states=20000, reset_at=None):
+    """Explore feasible paths from `start`; along each path accumulate facts (hashable) produced by
+    edge_fact(b, succ, labels) -> iterable and block_fact(b) -> iterable.  Returns a list of
+    (facts frozenset, return_block, path) -- one per distinct (facts, return block)."""
+    ex = Explorer(fn)
+    out = {}
+
+    def step(b, st, env):
+        if reset_at and b in reset_at:
+            st = frozenset()
+        if block_fact:
+            extra = list(block_fact(b) or ())
+            if extra:
+                st = st | frozenset(extra)
+        return st
+
+    def edge(b, s, labs, st, env):
+        if edge_fact:
+            extra = list(edge_fact(b, s, labs) or ())
+            if extra:
+                st = st | frozenset(extra)
+        return st
+
+    def at_return(b, st, path):
+        out.setdefault((st, b), path)
+
+    ex.walk(start, frozenset(), step, at_return=at_return, edge=edge, max_states=max_states)
+    return [(k[0], k[1], p) for k, p in out.items()]
+
+
+def ord_cmp_info(fn, lab):
+    """for a variant label on std::cmp::Ordering: the two operands compared (a.cmp(b)) or None"""
+    if lab["kind"] not in ("variant", "variant_not") or lab.get("adt") != "std::cmp::Ordering":
+        return None
+    l = lab["place"]["l"]
+    ds = [d for d in fn.defs().get(l, []) if not fn.is_cleanup(d[0])]
+    if len(ds) != 1 or ds[0][1] is not None:
+        return None
+    call = ds[0][2]
+    if strip_generics(call.get("callee") or "") not in ("std::cmp::Ord::cmp", "std::cmp::PartialOrd::partial_cmp"):
+        return None
+    return call["args"][0], call["args"][1], ds[0][0]
+
+
+def relation_of_label(fn, lab):
+    """normalise comparison labels to (operand_a, operand_b, set of possible relations in {'lt','eq','gt'})"""
+    if lab["kind"] == "cmp":
+        op, truth = lab["op"], lab["truth"]
+        rel = {"Lt": {"lt"}, "Le": {"lt", "eq"}, "Gt": {"gt"}, "Ge": {"gt", "eq"}, "Eq": {"eq"}, "Ne": {"lt", "gt"}}[op]
+        if not truth:
+            rel = {"lt", "eq", "gt"} - rel
+        return lab["a"], lab["b"], rel
+    info = ord_cmp_info(fn, lab)
+    if info:
+        names = {"Less": "lt", "Equal": "eq", "Greater": "gt"}
+        if lab["kind"] == "variant":
+            return info[0], info[1], {names.get(lab["variant"], "?")}
+        left = {names[n] for n in (lab.get("variant") or "").split("|") if n in names}
+        return info[0], info[1], left or {"lt", "eq", "gt"}
+    return None
